@@ -115,3 +115,121 @@ def run(check, mirror, tier):
            describe=lambda m, inputs: {k: model_value(m, x) for k, x in inputs.items()},
            prefer=lambda inp: z3.And(inp["year_floor"] >= 1000, inp["year_floor"] <= 9999, inp["month_floor"] >= -1000, inp["month_floor"] <= 1000,
                                      inp["day_floor"] >= -1000, inp["day_floor"] <= 1000))
+    subtraction_job(check, mirror, rb)
+
+
+# ----------------------------------------------------------------------------- M: subtraction of date-and-time values with explicit offsets
+
+
+def days_from_civil(y, m, d):
+    """days since 1970-01-01 of the proleptic Gregorian date (y >= 1), integer arithmetic only"""
+    import z3
+    yp = z3.If(m <= 2, y - 1, y)
+    era = yp / 400
+    yoe = yp - era * 400
+    mp = z3.If(m > 2, m - 3, m + 9)
+    doy = (153 * mp + 2) / 5 + d - 1
+    doe = yoe * 365 + yoe / 4 - yoe / 100 + doy
+    return era * 146097 + doe - 719468
+
+
+def subtraction_job(check, mirror, rb):
+    import re
+    import z3
+    from mcheck import MirCrate, decide, model_value
+    from mir.sym import Adt, En, Opaque, Ref, Sc, mk_int, none, some
+    from mir.models import deref
+    import feelvals as fv
+    crate = MirCrate(mirror, ["feel"], overflow_checks=True)
+    U = fv.Universe(mirror)
+    check.bounds.append("M/datetime_subtraction: two date-and-time values, years 1..9999, any valid date / time / nanoseconds, zone Z or an explicit offset within +-14:59:59")
+    check.assumptions.append("chrono contract: FixedOffset::east(off).ymd_opt(..).and_hms_nano_opt(..) is the instant (days from civil * 86400 + h*3600 + m*60 + s - off) s + n ns; "
+                             "DateTime - DateTime is the difference of the instants; TimeDelta::num_nanoseconds is None when it does not fit i64")
+
+    def fresh_dt(ex, st, hint):
+        y = ex.fresh_int(st, "i32", hint + "_year")
+        mo = ex.fresh_int(st, "u8", hint + "_month")
+        d = ex.fresh_int(st, "u8", hint + "_day")
+        h = ex.fresh_int(st, "u8", hint + "_hour")
+        mi = ex.fresh_int(st, "u8", hint + "_minute")
+        s_ = ex.fresh_int(st, "u8", hint + "_second")
+        n = ex.fresh_int(st, "u64", hint + "_nano")
+        off = ex.fresh_int(st, "i32", hint + "_offset")
+        ex.assume(st, z3.And(U.cal_valid(y.e, mo.e, d.e), y.e >= 1, y.e <= 9999, h.e < 24, mi.e < 60, s_.e < 60, n.e < 10 ** 9, off.e >= -53999, off.e <= 53999))
+        zone = En("FeelZone", z3.If(off.e == 0, z3.IntVal(0), z3.IntVal(2)), {"Utc": (), "Offset": (off,)})
+        v = Adt("struct", "FeelDateTime", (Adt("struct", "FeelDate", (y, mo, d)), Adt("struct", "FeelTime", (h, mi, s_, n, zone))))
+        inst = (days_from_civil(y.e, mo.e, d.e) * 86400 + h.e * 3600 + mi.e * 60 + s_.e - off.e) * 10 ** 9 + n.e
+        fields = {hint + "_" + k: x.e for k, x in (("year", y), ("month", mo), ("day", d), ("hour", h), ("minute", mi), ("second", s_), ("nano", n), ("offset", off))}
+        return v, inst, fields
+
+    def m_dto(ex, st, callee, args, dest_ty):
+        d, t, off = args
+        y, mo, dd = [f.e for f in d.fields]
+        h, mi, sec, n = [f.e for f in t.fields]
+        okc = z3.And(U.cal_valid(y, mo, dd), y >= -262143, y <= 262142, h < 24, mi < 60, sec < 60, n < 2000000000, off.e > -86400, off.e < 86400)
+        inst = (days_from_civil(y, mo, dd) * 86400 + h * 3600 + mi * 60 + sec - off.e) * 10 ** 9 + n
+        yield st, En("Option", z3.If(okc, z3.IntVal(1), z3.IntVal(0)), {"None": (), "Some": (Opaque("DateTime", inst),)})
+
+    def m_sub(ex, st, callee, args, dest_ty):
+        yield st, Opaque("TimeDelta", z3.simplify(args[0].e - args[1].e))
+
+    def m_num_ns(ex, st, callee, args, dest_ty):
+        d = deref(ex, st, args[0]) if isinstance(args[0], Ref) else args[0]
+        fits = z3.And(d.e >= -(2 ** 63), d.e <= 2 ** 63 - 1)
+        yield st, En("Option", z3.If(fits, z3.IntVal(1), z3.IntVal(0)), {"None": (), "Some": (Sc(d.e, "i64"),)})
+    MODELS = [(re.compile(r"^date_time_offset$"), m_dto),
+              (re.compile(r"^<DateTime<FixedOffset> as Sub>::sub$|^<DateTime<FixedOffset> as Sub<DateTime<FixedOffset>>>::sub$"), m_sub),
+              (re.compile(r"^(chrono::)?(TimeDelta|Duration)::num_nanoseconds$"), m_num_ns)]
+
+    def setup(ex, st):
+        a, ia, fa = fresh_dt(ex, st, "a")
+        b, ib, fb = fresh_dt(ex, st, "b")
+        inputs = dict(fa)
+        inputs.update(fb)
+        inputs["_diff"] = ia - ib
+        return "subtract", [Ref(ex.new_cell(st, a, "a")), Ref(ex.new_cell(st, b, "b"))], inputs
+
+    def post(ex, o, v):
+        r = o.value
+        res = [("the difference of two date-and-time values with explicit offsets is defined", r.disc == 1)]
+        if "Some" in r.alts:
+            res.append(("it is the exact distance of the two instants on the UTC time line, in nanoseconds", z3.Implies(r.disc == 1, r.alts["Some"][0].e == v["_diff"])))
+        return res
+
+    def lit(i, p):
+        off = i[p + "_offset"]
+        z = "Z" if off == 0 else "%s%02d:%02d%s" % ("-" if off < 0 else "+", abs(off) // 3600, abs(off) % 3600 // 60, (":%02d" % (abs(off) % 60)) if abs(off) % 60 else "")
+        frac = (".%09d" % i[p + "_nano"]).rstrip("0").rstrip(".") if i[p + "_nano"] else ""
+        return 'date and time("%04d-%02d-%02dT%02d:%02d:%02d%s%s")' % (i[p + "_year"], i[p + "_month"], i[p + "_day"], i[p + "_hour"], i[p + "_minute"], i[p + "_second"], frac, z)
+
+    def py_instant(i, p):
+        import datetime
+        d = datetime.date(i[p + "_year"], i[p + "_month"], i[p + "_day"]).toordinal() - datetime.date(1970, 1, 1).toordinal()
+        return (d * 86400 + i[p + "_hour"] * 3600 + i[p + "_minute"] * 60 + i[p + "_second"] - i[p + "_offset"]) * 10 ** 9 + i[p + "_nano"]
+
+    def replay(i, rb):
+        expr = "string(%s - %s)" % (lit(i, "a"), lit(i, "b"))
+        _, out, _ = replay_call(rb, ["feel", expr])
+        want = py_instant(i, "a") - py_instant(i, "b")
+        txt = out[6:].strip().strip('"') if out.startswith("VALUE ") else out
+        got = dt_duration_ns(txt) if out.startswith('VALUE "') else None
+        return got != want, "%s -> %s (%s ns), the instants are %d ns apart" % (expr, txt[:80], got, want)
+
+    def desc(m, v):
+        return {k: model_value(m, x) for k, x in v.items() if not k.startswith("_")}
+
+    def prefer(v):
+        c = [v[p + "_nano"] == 0 for p in ("a", "b")] + [v[p + "_offset"] % 3600 == 0 for p in ("a", "b")]
+        return z3.And(c)
+    decide(check, crate, "datetime_subtraction", setup, post, replay, rb, enums={"FeelZone": {"Utc": 0, "Local": 1, "Offset": 2, "Zone": 3}}, models=MODELS, describe=desc,
+           prefer=prefer, known_predicates=KNOWN_PRED, budget_s=600, min_paths=2, max_cex=3)
+
+
+def kp_span(inputs):
+    """KNOWN FINDING C15-subtraction-span: the two instants are more than i64::MAX nanoseconds (about 292 years) apart"""
+    import z3
+    d = inputs["_diff"]
+    return z3.Or(d > 2 ** 63 - 1, d < -(2 ** 63))
+
+
+KNOWN_PRED = {"C15-subtraction-span": kp_span}
